@@ -286,6 +286,30 @@ fn ob_c15_contract_min_max_at_pivot(min: usize, extent: usize, pivot: usize) {
     );
 }
 
+//@ob C15.contract.from_depths_or_max
+//@ props: C15
+//@ kind: complete
+//@ contract: DepthMinMax::from_depths_or_max
+//@ fns: src/walk/behavior.rs::DepthMinMax::from_depths_or_max
+//@ pre: none
+//@ post: [attribute contract] Max(max(p,q)) when the smaller depth is zero, otherwise MinMax with min = min(p,q) and min + extent = max(p,q); never Unbounded or Min
+fn ob_c15_contract_from_depths_or_max(p: usize, q: usize) {
+    let r = DepthMinMax::from_depths_or_max(p, q);
+    vreplay_assert!(matches!(r, DepthBehavior::Max(_) | DepthBehavior::MinMax(_)), "C15 contract of from_depths_or_max");
+}
+
+//@ob C15.contract.from_min_or_unbounded
+//@ props: C15
+//@ kind: complete
+//@ contract: DepthMin::from_min_or_unbounded
+//@ fns: src/walk/behavior.rs::DepthMin::from_min_or_unbounded
+//@ pre: none
+//@ post: [attribute contract] Unbounded iff min = 0, otherwise Min(min)
+fn ob_c15_contract_from_min_or_unbounded(min: usize) {
+    let r = DepthMin::from_min_or_unbounded(min);
+    vreplay_assert!(matches!(r, DepthBehavior::Unbounded) == (min == 0), "C15 contract of from_min_or_unbounded");
+}
+
 //@ob C15.canary
 //@ props: C15
 //@ kind: canary
